@@ -15,6 +15,7 @@ func init() {
 }
 
 func runC08(c *rules.Ctx) {
+	clClaimRebaseRules(c)
 	const K = "x/concentrated-liquidity.Keeper."
 	const P = "x/concentrated-liquidity."
 	// ---- crossing a tick
